@@ -496,6 +496,9 @@ class Exec:
         elif isinstance(it, Arr):
             length = it.n
             elem = lambda k: z3.Select(it.a, k)
+        elif hasattr(it, "length") and hasattr(it, "at"):
+            length = it.length()
+            elem = lambda k: it.at(k)
         else:
             raise Unsupported(f"for over {type(it).__name__}")
         self.loop_pre = V.clone({"env": self.frame.env}, {})
